@@ -37,7 +37,7 @@ func printAST(file *ast.FileNode) string {
 }
 
 func runC11(h *hx.H) {
-	h.Rule = "every token string of <=3 (quick) / <=4 (thorough) tokens with every assignment of separators from {space, TAB, CRLF, LF, FF, block comment, line comment, nothing} (plus leading/trailing trivia), every arrangement of <=2 non-default trivia values in the slots of a declaration skeleton, every corpus file with and without a byte-order mark and with CRLF line ends, literal spellings inside option values; for each input the parser accepts, printing the AST must reproduce the input bytes (minus the BOM); non-trivial = accepted input containing a comment, tab, CR or form feed"
+	h.Rule = "every token string of <=3 (quick) / <=4 (thorough) tokens with every assignment of separators from {space, TAB, CRLF, LF, FF, block comment, line comment, nothing} (plus leading/trailing trivia), every arrangement of <=2 non-default trivia values in the slots of two declaration skeletons (the second with empty declarations after every kind of statement), every corpus file with and without a byte-order mark and with CRLF line ends, literal spellings inside option values; for each input the parser accepts, printing the AST must reproduce the input bytes (minus the BOM); non-trivial = accepted input containing a comment, tab, CR or form feed"
 	check := func(src string) {
 		idx, run := h.NextN()
 		if !run {
@@ -96,6 +96,9 @@ func runC11(h *hx.H) {
 		}
 		return b.String()
 	}
+	// a second skeleton with empty declarations (extra semicolons) after every kind of statement
+	skel2 := strings.Fields(`syntax = "proto2" ; ; package p ; ; import "x.proto" ; ; option java_package = "y" ; ; message M { optional int32 a = 1 ; ; map < string , int32 > m = 2 ; ; reserved "zz" ; ; enum E { A = 0 ; ; } ; } service S { rpc R ( M ) returns ( M ) ; ; }`)
+	forEachLayout(skel2, trivia, 2, 3, func(s string) { check(s) })
 	check(build(nil))
 	for i := 0; i <= len(skel); i++ {
 		for _, v := range trivia {
